@@ -65,6 +65,14 @@ CHECKS = {
   'real scratch directory trees, real DirectoryResourcePopulator, seeded sibling listing order through a glob shim whose result set is cross-checked against the real glob on every call; option matrix nest x trim at construction and per call, pre-populated maps, repeated population, rules over existing / nested / missing / regular-file paths with extension filters; key set, factory arguments, map-ness of directories, conflict clauses (judged on what the recording factory observed when each handle was built) and ValueError for a file path.',
   'trusted: os.path on the scratch file system; hidden files and stem==sibling-directory collisions are not generated; no I/O errors injected',
   'deterministic simulation with a file-system listing-order seam; seeded tree/rule/option configurations'),
+ 'C13': ('loop', 'exploration', 'DESIGN.md 3/C13',
+  'a real SimpleLoop with a simulated clock drives 2-4 world handles populated with scripted processors, handler components and coroutines; frame scripts are placed iteratively on activations observed in dry runs and request switches (switch() / raise SwitchWorld, all flag combinations, self-switch, cached or not, from processors, on_update, coroutines, on_switch_in) and dispatch probe events on muted worlds; every event is attributed to a world instance (handle, generation); inline monitors (muted world stays silent, abandoned frame, the predicted instance runs) plus a per-request history check (out once in x, in once in y after its load-time callbacks, held events released in order).',
+  'trusted: LoopModel instance prediction; an exception leaving a callback of the entering release cuts that delivery short (C04)',
+  'deterministic simulation: multi-world loop with seeded frame scripts, instance-attributed history check'),
+ 'C14': ('loop', 'fault_enumeration', 'DESIGN.md 3/C14',
+  'C13 system with generated clocks (repeated readings, jumps of 1000, int/float/Fraction, offsets up to 2^40); for each sampled base run a terminating fault (Quit, quit_loop(None/current), ordinary exception, BaseException) is raised at activations of the run (quick: 3 sampled; thorough: every activation x 5 kinds), each followed by a restart of the same loop object; exact dt ledger per start (first dt 0, dt == difference of consecutive readings across switches, one process per reading), outcome of start(), running flag, current world/handle identity, on_quit deliveries.',
+  'trusted: every world has a first processor making each process() observable; exhaustive only within each sampled base scenario',
+  'deterministic simulation with a simulated clock and crash/quit injection at every actor activation; dt ledger'),
 }
 NA = {
  'C18': 'pure arithmetic on immutable tuples: no state, schedule, clock, I/O or fault for a simulator to decide (DESIGN.md section 3, C18)',
